@@ -734,14 +734,16 @@ func Stack[V any](arguments ...any) col.StackLike[V] {
 	case sequence != nil:
 		stack = class.MakeFromSequence(sequence)
 	case len(source) > 0:
-		stack = class.Make()
 		var collection = notation.ParseSource(source).(col.Sequential[any])
-		// Convert the values to their real type.
+		// Convert the values to their real type, the first value is the top.
+		var converted = make([]V, collection.GetSize())
+		var index int
 		var iterator = collection.GetIterator()
 		for iterator.HasNext() {
-			var value = iterator.GetNext().(V)
-			stack.AddValue(value)
+			converted[index] = iterator.GetNext().(V)
+			index++
 		}
+		stack = class.MakeFromArray(converted)
 	default:
 		stack = class.Make()
 	}
